@@ -156,13 +156,11 @@ def rule_sib(ctx, R):
         if k not in oarms or k not in iarms:
             continue
         od = language(ob, fb, ocfg, oarms[k], [ojoin], oev)
+        # both siblings are compared with the same table (and its accepted variants), so each may be
+        # restructured independently as long as it stays within the definition
+        p_c01.check_lang_any(R, "opt_execute:arm%d" % k, "kind %d in the speculative executor (bail-out paths pruned)" % k, od, p_c01.ARM_VARIANTS[k], ob.blocks[oarms[k]]["term"]["span"]["at"])
         idf = language(ib, fb, icfg, iarms[k], [ijoin], iev)
-        diff = compare(od, idf)
-        if diff is None:
-            R.ok("opt_execute:arm%d" % k, "kind %d: speculative executor and interpreter have the same event language (%d states)" % (k, od.n_states()), ob.blocks[oarms[k]]["term"]["span"]["at"])
-        else:
-            side = "opt_execute" if diff["only_in"] == 1 else "execute_one"
-            R.fail("opt_execute:arm%d" % k, "kind %d: after [%s] only %s continues with %s" % (k, " ".join(diff["prefix"][-8:]), side, diff["next"]), diff.get("where") or ob.blocks[oarms[k]]["term"]["span"]["at"], diff)
+        p_c01.check_lang_any(R, "execute_one:arm%d" % k, "kind %d in the interpreter (reference sibling)" % k, idf, p_c01.ARM_VARIANTS[k], ib.blocks[iarms[k]]["term"]["span"]["at"])
     # jump segment: from the join to the loop head / success return, against the definition's jump rules
     oev2, _ = opt_events(fb, ob, interesting=jump_interesting)
     if R.anchor(loc is not None, "loc", "position variable of the speculation loop"):
